@@ -335,7 +335,7 @@ func (x *Exec) step(r *StepRec) {
 	}
 	x.stats.Steps++
 	x.logf("%d %s h=%d res=%s d=%s", r.Idx, r.Kind, r.Height, r.Res.Code, r.Post.Digest()[:16])
-	if len(r.Post.ParseErrs) > 0 && !x.armed["C18"] && x.internalErr == "" {
+	if len(r.Post.ParseErrs) > 0 && !x.armed["C18"] && !x.armed["C15"] && x.internalErr == "" {
 		x.internalErr = "snapshot parse error (harness grammar vs store): " + r.Post.ParseErrs[0]
 	}
 	x.genericProbes(r)
